@@ -337,6 +337,20 @@ func immutableStoresRule(c *Ctx, r *Report, rule string) {
 			if !isAlloc && localRoot(base) != nil {
 				isAlloc = true // a local variable captured by a closure
 			}
+			if ia, ok := base.(*ssa.IndexAddr); ok && !isAlloc {
+				// an element of a slice made in this function (tags := make([]T, n); tags[i] = T{…})
+				made := true
+				for _, s := range append(Sources(ia.X), ia.X) {
+					if _, isMk := s.(*ssa.MakeSlice); !isMk {
+						if k, isK := s.(*ssa.Const); !isK || !k.IsNil() {
+							made = false
+						}
+					}
+				}
+				if made {
+					isAlloc = true
+				}
+			}
 			r.Check(isAlloc, rule, c.FnName(fn), "store "+hit, c.Pos(st.Pos()), "store into an object this function is constructing", fmt.Sprintf("store into %s through a pointer that is not a local construction (%s): an object shared by copies and concurrent readers is modified after it was built", hit, base.String()))
 		})
 	}
